@@ -31,3 +31,30 @@ Definition check (c : case) : bool :=
   end.
 
 Definition mismatches (l : list case) : list nat := failing check l.
+
+(* diagnostic: the position (in the collapsed trace) and the event at which the set of
+   skeleton states compatible with the trace becomes empty; None when the whole trace is a
+   path.  For CTraceClosed a trace that is a path but does not end in the final state gives
+   (length, None). *)
+Fixpoint reject_from (cur : list state) (n : nat) (t : list obs) : option (nat * option obs) :=
+  match t with
+  | [] => None
+  | o :: r =>
+      match step_obs cur o with
+      | [] => Some (n, Some o)
+      | nxt => reject_from nxt (S n) r
+      end
+  end.
+
+Definition first_reject (c : case) : option (nat * option obs) :=
+  match c with
+  | CTrace tr => reject_from (tclose [init_state]) O (collapse None tr)
+  | CTraceClosed tr =>
+      match reject_from (tclose [init_state]) O (collapse None tr) with
+      | Some r => Some r
+      | None => if ends_final tr then None else Some (List.length (collapse None tr), None)
+      end
+  end.
+
+Definition collapsed (c : case) : list obs :=
+  match c with CTrace tr | CTraceClosed tr => collapse None tr end.
